@@ -189,6 +189,15 @@ func runDialogue(scr *core.Scratch, sc *dscenario, o runOpts) *drun {
 	case "drc-C":
 		mainFunc = drc.Main
 		os.Args = []string{"drc", "-C", "-L", logDir, codeFile}
+	case "drc-q":
+		mainFunc = drc.Main
+		os.Args = []string{"drc", "-q", "-L", logDir, codeFile}
+	case "drc-C-q":
+		mainFunc = drc.Main
+		os.Args = []string{"drc", "-C", "-q", "-L", logDir, codeFile}
+	case "drc-logfile":
+		mainFunc = drc.Main
+		os.Args = []string{"drc", "-L", logDir, "--LOGFILE", filepath.Join(work, "drc.log"), codeFile}
 	case "drc-C-nolog":
 		mainFunc = drc.Main
 		os.Args = []string{"drc", "-C", codeFile}
